@@ -91,6 +91,29 @@ def lemmas(idx):
                 lanes = view(eye, d_, up, kind)
                 add(cfg, f, vs, [tree_coq(p_) for p_ in P], st, lanes, '%s: rows s = normalize(f x up), u = s x f, -f; translation -(eye.s), -(eye.u), eye.f' % name, tactic='alg_congr')
             except (SymErr, ValueError): continue
+    # Quat / DQuat look_to_* / look_at_*: the same three rows are handed to the matrix -> quaternion conversion (from_rotation_axes, abstracted by an
+    # argument-returning stub; its four branches are lemmas of C05)
+    def fid_of(cfg, key): return next((g['fid'] for g in idx.fns(cfg) if g['key'] == key and g['fid'] is not None), None)
+    for cfg in CFGS:
+        structs = idx.structs(cfg)
+        for f in idx.fns(cfg):
+            st = f['self']; tn = tname(st) if st is not None else None
+            if tn not in ('Quat', 'DQuat') or f['generic'] or f['by_ref'] or not f['pub'] or f['has_self'] or f['name'] not in ('look_to_rh', 'look_to_lh', 'look_at_rh', 'look_at_lh') or f['fid'] is None: continue
+            k = 'f32' if tn == 'Quat' else 'f64'; name = f['name']; ps = f['params']; callee = fid_of(cfg, tn + '::from_rotation_axes')
+            if callee is None: continue
+            try:
+                vs = []; P = [sym(structs, p_[1], 'abc'[i], vs) for i, p_ in enumerate(ps)]; V = [[l[2] for l in tree_leaves(p_)] for p_ in P]
+                if name.startswith('look_to'): d_, up = V
+                else: eye, ctr, up = V; d_ = nrm(sub(ctr, eye))
+                if name.endswith('_lh'): d_ = neg(d_)
+                lanes = alg.kxl(view(None, d_, up, 'mat3')); VFk = 'VF32' if k == 'f32' else 'VF64'
+                rhs = 'Ok (VT [%s])' % '; '.join('VT [%s]' % '; '.join('%s %s' % (VFk, x) for x in lanes[3 * c:3 * c + 3]) for c in range(3))
+                lhs = 'rnorm (run OA (override tbl %d%%positive stub_args3) 400 %d%%positive [%s])' % (callee, f['fid'], '; '.join(alg.kxargs([tree_coq(p_) for p_ in P])))
+                cover.append((cfg, f)); key = (lhs, rhs, ())
+                if key in seen: seen[key].meta['covers'].append('%s:%s' % (cfg, f['key'])); continue
+                n += 1; lem = alg.AlgLemma('prj_%d' % n, vs, lhs, rhs, tactic='alg_congr', meta={'cfg': cfg, 'key': f['key'], 'file': f['file'], 'fid': f['fid'], 'did': f['did'], 'covers': ['%s:%s' % (cfg, f['key'])], 'spec': '%s: rows s, u, -f handed to from_rotation_axes (abstracted)' % name})
+                seen[key] = lem; order.append(lem)
+            except (SymErr, ValueError): continue
     for cfg in CFGS:
         structs = idx.structs(cfg)
         for f in idx.fns(cfg):
@@ -124,7 +147,7 @@ def run(tier, seed):
     t0 = time.time(); idx, info = flow.prepare()
     files, notes, cover = lemmas(idx)
     per_fn = 6 if tier == 'quick' else 60
-    return f1.run('C11', tier, seed, idx, info, t0, files, notes, cover, alg.BOILER, per_fn,
+    return f1.run('C11', tier, seed, idx, info, t0, files, notes, cover, alg.BOILER_MOD, per_fn,
         'one algebraic lemma per perspective_* / orthographic_* constructor and per project/transform function of Mat4 and DMat4 in three backends, against the documented matrices, over an arbitrary field; frustum facts of the documented matrices in coq/theories/ProjAlg.v; correspondence: %d random calls per function' % per_fn,
         ['documented projection matrices in harness/props/C11.py; coq/theories/ProjAlg.v'],
         ['look_to_* / look_at_* (view matrices) are exercised by the correspondence run only'], footer=alg.FOOTER)
